@@ -8,9 +8,11 @@ require (
 	github.com/gorilla/websocket v1.4.2
 	github.com/jessevdk/go-flags v1.4.0
 	github.com/miekg/dns v1.1.34
+	github.com/multiformats/go-multistream v0.1.2
 	github.com/pkg/errors v0.9.1
 	github.com/sirupsen/logrus v1.6.0
 	github.com/xtaci/kcp-go/v5 v5.6.1
+	github.com/xtaci/smux v1.5.14
 	golang.org/x/net v0.0.0-20200822124328-c89045814202
 )
 
@@ -26,12 +28,10 @@ require (
 	github.com/mattn/go-colorable v0.1.4 // indirect
 	github.com/mattn/go-isatty v0.0.10 // indirect
 	github.com/mtraver/base91 v1.0.0 // indirect
-	github.com/multiformats/go-multistream v0.1.2 // indirect
 	github.com/multiformats/go-varint v0.0.6 // indirect
 	github.com/templexxx/cpu v0.0.7 // indirect
 	github.com/templexxx/xorsimd v0.4.1 // indirect
 	github.com/tjfoc/gmsm v1.3.2 // indirect
-	github.com/xtaci/smux v1.5.14 // indirect
 	github.com/youmark/pkcs8 v0.0.0-20200520070018-fad002e585ce // indirect
 	go.chromium.org/luci v0.0.0-20201018155654-3aac261c05da // indirect
 	golang.org/x/crypto v0.0.0-20200728195943-123391ffb6de // indirect
